@@ -24,7 +24,7 @@ import (
 //	led V SITE DUP ; A pre acq steps a1 a2 ; ... ; T op ...
 //	SITE  0 host (own UDP sockets)  1 tcpmux  2 srflx  3 relay
 //	A     one gatherer attempt: pre/a1/a2 = action placed before the acquisition / after it /
-//	      between the last step and addCandidate (0 none 1 Restart 2 Close 3 Failed);
+//	      between the last step and addCandidate (0 none 1 Restart 2 Close 3 Failed 4 Restart then Close);
 //	      acq = 1 socket granted, 0 refused; steps: srflx "1" reply "0" timeout "2" closed by the
 //	      loop-done watcher (a1 = Close); relay: factory, Listen, Allocate, relayed-address outcomes e.g. "1111", "10", "1110" (address of a family not configured), "1112" (location-tracked address), "1113" (accepted; closing the allocation later reports an error)
 //	T     after the cycle: R Restart, F Failed, G a second plain cycle, C Close; a checkpoint
@@ -117,6 +117,7 @@ type world struct {
 	armed     bool // traps active (first cycle only)
 	trapped   map[interface{}]bool
 	pub       int
+	cpAtClose string // checkpoint taken by the goroutine of a scripted Close at the moment Close returned
 	// gate is closed (the channel, i.e. opened for the gatherers) once the harness holds the done
 	// channel of the cycle it just started: no gatherer attempt -- hence no scripted Close -- runs
 	// before that, so the harness never misses the end of the cycle and never disarms the traps
@@ -145,6 +146,11 @@ func (w *world) act(code int) {
 		go func() {
 			defer w.closeWG.Done()
 			_ = w.agent.Close()
+			// the ledger as it is when Close returns: nothing may be released only later
+			cp := w.checkpoint(3)
+			w.mu.Lock()
+			w.cpAtClose = cp
+			w.mu.Unlock()
 		}()
 		// Close has "happened" once the loop is done
 		for i := 0; i < 20000; i++ {
@@ -155,6 +161,9 @@ func (w *world) act(code int) {
 		}
 	case 3:
 		_ = ice.VerifSetConnectionStateFailed(w.agent)
+	case 4: // Restart, then Close while the gatherers cancelled by the Restart are still winding down
+		w.act(1)
+		w.act(2)
 	}
 }
 
@@ -442,7 +451,13 @@ func runCase(c *Ctx, t []string) {
 		w.closeWG.Wait()
 		switch {
 		case w.closed:
-			cps = append(cps, w.checkpoint(3))
+			w.mu.Lock()
+			cp := w.cpAtClose
+			w.mu.Unlock()
+			if cp == "" {
+				cp = w.checkpoint(3)
+			}
+			cps = append(cps, cp)
 		case w.restarted:
 			cps = append(cps, w.checkpoint(2))
 		default:
@@ -562,9 +577,12 @@ func run(c *Ctx) error {
 					continue
 				}
 				for point := 0; point < 4; point++ { // 0 none 1 pre 2 a1 3 a2
-					for action := 1; action <= 3; action++ {
+					for action := 1; action <= 4; action++ {
 						if point == 0 && action > 1 {
 							continue
+						}
+						if action == 4 && (point != 2 || acq == 0) {
+							continue // Restart followed by Close: after the acquisition only
 						}
 						a := attempt{acq: acq, steps: steps}
 						switch point {
@@ -577,6 +595,12 @@ func run(c *Ctx) error {
 						}
 						if point == 3 && site <= 1 {
 							continue // host/tcpmux have no step between acquisition and add
+						}
+						if site == 2 && action == 4 {
+							if steps != "1" {
+								continue
+							}
+							a.steps = "2"
 						}
 						if site == 2 && action == 2 {
 							// Close on the srflx site: only where the watcher's outcome is determined
